@@ -740,6 +740,9 @@ impl DB {
                 Ok(num_files.to_string())
             }
             DatabaseDescriptor::Stats => {
+                // `summarize_compaction_stats` takes the database lock itself and the lock is not
+                // re-entrant, so release it first.
+                drop(db_fields_guard);
                 let db_stats = self.summarize_compaction_stats();
                 Ok(db_stats)
             }
